@@ -422,6 +422,26 @@ func main() {
 					c.Fail("released-bytes-not-prefix-of-plaintext/long", fmt.Sprintf("replay%d", mod), "released bytes are not a prefix", nil)
 				}
 			}
+			// a second chunking of a plaintext that is a whole number of chunks: k full non-final chunks + an empty final chunk
+			for _, k := range []int{1, 2, 255, 256, 257, 512, 65536} {
+				if k+1 > nch {
+					continue
+				}
+				p2 := pt[:k*C]
+				var alt []byte
+				for i := 0; i < k; i++ {
+					alt = append(alt, refage.SealChunk(key, uint64(i), false, p2[i*C:(i+1)*C])...)
+				}
+				alt = append(alt, refage.SealChunk(key, uint64(k), true, nil)...)
+				c.Eval(1)
+				c.DistinctOnce(uint64(100000 + k))
+				_, err, _, pan := runStream(key, alt, 0)
+				if pan != "" {
+					c.Fail("panic", fmt.Sprintf("emptyfinal%d", k), pan, nil)
+				} else if err == nil {
+					c.Fail("second-chunking-accepted/empty-final-chunk", fmt.Sprintf("emptyfinal%d", k), fmt.Sprintf("%d full non-final chunks followed by an empty final chunk are accepted: a second chunking of the same plaintext", k), nil)
+				}
+			}
 			c.Sample(map[string]interface{}{"chunks": nch, "mutation": "chunk 0 copied over chunk 256"})
 		}
 	})
